@@ -118,7 +118,9 @@ pub fn shard_main(prop: &str, registry: &[Entry]) {
                 .spawn(move || {
                     hrt::real::silence_panics();
                     let r = f(&inp2, Mode::Recorded);
-                    (r, take_trace().len())
+                    // scheduling points of this parse: tracer callbacks plus calls of extern functions
+                    let ext_calls = hrt::user::take_calls().iter().filter(|(f, _)| !f.contains("::chk")).count();
+                    (r, take_trace().len() + ext_calls)
                 })
                 .unwrap()
                 .join()
